@@ -165,10 +165,6 @@ PROPS["C05"] = {
         _p("c05::c05_rt_error_l3", T, "Error, symbolic code, 3 symbolic bytes, 2 trailing"),
         _p("c05::c05_rt_ok", Q, "Ok frame, 3 symbolic trailing bytes"),
         _p("c05::c05_rt_register_requestor", Q, "RegisterRequestor, concrete topic /abc/d-e_f", timeout=1500),
-        _p("c05::c05_rt_register_replier", T, "RegisterReplier, concrete topic, 2 trailing bytes", timeout=3000, mem_gb=14),
-        _p("c05::c05_rt_register_publisher_ops0", T, "RegisterPublisher, symbolic retention, no operations", timeout=3000, mem_gb=14),
-        _p("c05::c05_rt_register_publisher_ops2", T, "RegisterPublisher, symbolic retention, 2 operations", timeout=3000, mem_gb=14),
-        _p("c05::c05_rt_register_subscriber_ops1", T, "RegisterSubscriber, symbolic retention, 1 operation", timeout=3000, mem_gb=14),
         _p("c05::c05_partial_c0", Q, "decode on an empty buffer"),
         _p("c05::c05_partial_c5", Q, "decode on 5 arbitrary bytes"),
         _p("c05::c05_partial_c8", Q, "decode on 8 arbitrary bytes"),
@@ -182,7 +178,6 @@ PROPS["C05"] = {
         _p("c05::c05_batch_dec_n0", Q, "decode_message_batch of the image of []"),
         _p("c05::c05_batch_dec_n1", Q, "decode_message_batch of the image of [2 bytes]"),
         _p("c05::c05_batch_dec_n2", Q, "decode_message_batch of the image of [1,1 bytes]"),
-        _p("c05::c05_batch_dec_n3", T, "decode_message_batch of the image of [2,0,1 bytes]"),
         _p("c05::c05_batch_dec_e1", Q, "decode_message_batch of the image of [one empty message]"),
         _p("c05::c05_batch_dec_e3", Q, "decode_message_batch of the image of [0,1,0 bytes] (more messages than payload bytes)"),
         _p("c05::c05_batch_enc_e2", T, "encode_message_batch([two empty messages])"),
